@@ -314,6 +314,20 @@ def public(ctx):
         if not is_sym_perm(Acsr.toarray(), P.toarray()):
             ctx.fail('symmetric_rcm' + ('' if nc == 1 else '/disconnected'),
                      'result is not a symmetric permutation of the input (nnz %d vs %d)' % (P.nnz, Acsr.nnz), base)
+        # the same pattern with values that are NOT symmetric (a_ij != a_ji): the reordering permutes rows and columns
+        # alike, it never transposes
+        Ans = Acsr.copy()
+        rows_ = np.repeat(np.arange(n), np.diff(Ans.indptr))
+        Ans.data = np.where(rows_ < Ans.indices, Ans.data, np.where(rows_ > Ans.indices, -2.0 * Ans.data - 1.0, Ans.data)) \
+            + 0.125 * (rows_ % 3)
+        try:
+            Pn = pg.symmetric_rcm(Ans)
+            if not is_sym_perm(Ans.toarray(), Pn.toarray()):
+                ctx.fail('symmetric_rcm/nonsymmetric-values' + ('' if nc == 1 else '/disconnected'),
+                         'result is not P A P^T for any permutation (values a_ij != a_ji)', dict(base, values='nonsymmetric'))
+            ctx.count('public:rcm-nonsymmetric-values')
+        except Exception as e:   # noqa
+            ctx.fail('symmetric_rcm/nonsymmetric-values/raises', repr(e), base)
 
 
 def is_sym_perm(A, B):
